@@ -49,6 +49,7 @@ func init() {
 	ops["inspect"] = func(a []string) string {
 		return resInfo(inspectAt(string(unhx(a[0])), unhx(a[1])))
 	}
+	reemit["inspect"] = func(a []string) { emitInspect(string(unhx(a[0])), unhx(a[1])) }
 }
 
 // dispatchArgs records, independently of the table, what every sniffer and every parser does on this input.
